@@ -47,9 +47,13 @@ impl From<Result<DoviRpu, anyhow::Error>> for RpuOpaque {
 impl Freeable for RpuOpaqueList {
     unsafe fn free(&self) {
         unsafe {
-            let list = Vec::from_raw_parts(self.list as *mut *mut RpuOpaque, self.len, self.len);
-            for ptr in list {
-                drop(Box::from_raw(ptr));
+            // The list is null when parsing failed
+            if !self.list.is_null() {
+                let list =
+                    Vec::from_raw_parts(self.list as *mut *mut RpuOpaque, self.len, self.len);
+                for ptr in list {
+                    drop(Box::from_raw(ptr));
+                }
             }
 
             if !self.error.is_null() {
